@@ -193,6 +193,120 @@ def r24d(ctx, P, r, fbs):
                v[1].loc() if v else "%s:%s" % (r.file, r.line))
 
 
+def request_context(P, r, rts, fbs):
+    """Functions of searchlite-http that run on the async runtime while a request is being answered: handlers, fallbacks,
+    middleware error mappers named in `router`, IntoResponse impls — and what they reach inside the crate — minus the closures
+    handed to spawn_blocking (a panic there becomes a JoinError, R24.b)."""
+    roots = set()
+    for (_p, _m, h, _s) in rts:
+        roots.add(h)
+    for k, (h, _s) in (fbs or {}).items():
+        roots.add(h)
+    for b, i, st in r.stmts():
+        pass
+    for b, t in r.calls():
+        for a in t["args"]:
+            c = op_const(a)
+            if c and "fn" in c:
+                roots.add(c.get("resolved", c["fn"]))
+    for q, f in P.fns.items():
+        if f.crate == "searchlite_http" and "IntoResponse" in (f.impl_trait or "") and not is_test_or_bench(f):
+            roots.add(q)
+    blocking = set()
+    for q, f in P.fns.items():
+        if f.crate != "searchlite_http":
+            continue
+        sl = None
+        for b, t in f.calls():
+            if callee_of(t) == "tokio::task::blocking::spawn_blocking":
+                sl = sl or Slice(f, through_all_calls=True)
+                for a in t["args"]:
+                    for y in sl.sources(a):
+                        if y[0] == "agg" and y[3].get("closure"):
+                            blocking.add(y[3]["closure"])
+    for q in list(blocking):
+        g = P.fn(q)
+        if g is not None:
+            blocking |= {c.path for c in P.closures_of(g)}
+    ctxt = set()
+    work = [q for q in roots if q in P.fns and P.fns[q].crate == "searchlite_http"]
+    while work:
+        q = work.pop()
+        if q in ctxt or q in blocking:
+            continue
+        f = P.fns[q]
+        if is_test_or_bench(f):
+            continue
+        ctxt.add(q)
+        for c in P.closures_of(f, recursive=False) if "recursive" in P.closures_of.__code__.co_varnames else P.closures_of(f):
+            work.append(c.path)
+        for b, t in f.calls():
+            cal = callee_of(t)
+            if cal in P.fns and P.fns[cal].crate == "searchlite_http":
+                work.append(cal)
+            for a in t["args"]:
+                c = op_const(a)
+                if c and "fn" in c:
+                    g = c.get("resolved", c["fn"])
+                    if g in P.fns and P.fns[g].crate == "searchlite_http":
+                        work.append(g)
+    return ctxt, blocking
+
+
+def r24e(ctx, P, r, rts, fbs):
+    rid = "R24.e"
+    from sa.rules.C16 import panic_sites, discharge, UNWRAPS
+    from sa.rules import strsafe
+    ctx.rule(rid, "PANIC-FREE request context: a panic on the async runtime (outside spawn_blocking) drops the connection without a "
+                  "response. In every searchlite-http function that runs while a request is answered (handlers, fallbacks, middleware "
+                  "error mappers, IntoResponse impls and what they reach in the crate, minus spawn_blocking closures) there is no "
+                  "unwrap/expect/panic!/assert! that is not discharged by a local pattern, and every byte-offset string operation "
+                  "(String::truncate/insert/remove/drain/split_off/replace_range, str::split_at, str range index) has an offset that "
+                  "is a char boundary by construction (0, len/find/char_indices/Match offsets and their sums, or an "
+                  "is_char_boundary-guarded variable)")
+    C, blocking = request_context(P, r, rts, fbs)
+    ctx.floor(rid + ".context", len(C), 20, "functions in the request context of searchlite-http")
+    ctx.floor(rid + ".blocking", len(blocking), 6, "spawn_blocking closures excluded from the context")
+    # detector sanity: the same detector finds the start-up panics outside the context
+    outside = 0
+    for q, f in P.fns.items():
+        if f.crate == "searchlite_http" and q not in C and not is_test_or_bench(f):
+            outside += len(panic_sites(P, f))
+    ctx.floor(rid + ".detector", outside, 1, "explicit panic sites the detector finds in start-up code (main/router/shutdown_signal)")
+    nfun = 0
+    for q in sorted(C):
+        f = P.fns[q]
+        ctx.saw(f)
+        nfun += 1
+        for (site, tail, mac, t) in panic_sites(P, f):
+            reason = discharge(P, f, site, t) if callee_of(t) in UNWRAPS else None
+            ctx.ob(rid, "%s:%s:%s%s" % (rid, re_closure(f.short), tail, (":" + mac) if mac else ""), reason is not None,
+                   "%s at %s discharged (%s)" % (tail, site.loc(), reason) if reason else
+                   "%s%s at %s runs on the async runtime while a request is answered: if it fires the client gets no response"
+                   % (tail, ("!" + mac) if mac else "", site.loc()), site.loc())
+        for (b, t, idxs) in strsafe.byte_offset_calls(f):
+            cal = callee_of(t)
+            why = None
+            ok = True
+            for ix in idxs:
+                w = strsafe.char_boundary_safe(f, b, t["args"][ix])
+                if w is None:
+                    ok = False
+                else:
+                    why = w
+            ctx.ob(rid, "%s:%s:%s" % (rid, re_closure(f.short), cal.rsplit("::", 1)[1]), ok,
+                   "%s at %s: offset is a char boundary (%s)" % (cal.rsplit("::", 1)[1], Site(f, b).loc(), why) if ok else
+                   "%s at %s takes a byte offset that is not a char boundary by construction: on multi-byte text it panics on the async "
+                   "runtime and the client gets no response" % (cal.rsplit("::", 1)[1], Site(f, b).loc()), Site(f, b).loc())
+    ctx.ob(rid, "%s:request-context-enumerated" % rid, nfun > 0, "%d request-context functions examined, %d spawn_blocking closures excluded" % (nfun, len(blocking)),
+           "%s:%s" % (r.file, r.line))
+
+
+def re_closure(s):
+    import re
+    return re.sub(r"\{closure#\d+\}", "{closure}", s)
+
+
 def run(ctx, progs):
     P = progs.get("default")
     r, rts, fbs = routes(P)
@@ -207,5 +321,6 @@ def run(ctx, progs):
     r24b(ctx, P, rts)
     r24c(ctx, P)
     r24d(ctx, P, r, fbs)
+    r24e(ctx, P, r, rts, fbs)
     ctx.assumptions += ["axum turns a handler's Err(HttpError) into a response via IntoResponse, and a JoinError from spawn_blocking reports a panic of the closure",
                         "middleware errors (timeout, body limit) are converted by handle_middleware_error / map_413 (their statuses are checked in R24.c)"]
